@@ -91,7 +91,30 @@ RULE = ('scenarios with -j 2/3, all strategies; schedule budget 1-2 '
         'adversarial command: every deterministic command accepting at most '
         '2 of the candidates shown; oracle on monitored events '
         '(derive(base,cand), verdict, write, file at exit); '
-        'distinct_nontrivial = distinct (accepted chain, output bytes)')
+        'distinct_nontrivial = distinct (accepted chain, output bytes); REAL '
+        'tier: real -j 2/3 runs of bin/ddsmt with the command model as a '
+        'real script must end in an output that a model execution with <= 2 '
+        'deviations produces')
+
+
+def conformance(tier):
+    def extra(rep):
+        # REAL tier: real -j 2/3 runs (real Pool, Manager event, real
+        # subprocesses) must end in an output the model reaches
+        from .. import conform
+        scns = []
+        for inp, mname, ms in (('bool5', 'and+b', 'core'),
+                               ('asserts8', '3asserts', 'erase'),
+                               ('consts', '4gt', 'core'), ('int', '+', 'core')):
+            model = dict(S.MODELS[inp])[mname]
+            for strat in S.STRATEGIES:
+                for j in ((2, 3) if tier == 'thorough' else (2, )):
+                    scns.append(S.mk(f'real/{inp}/{strat}/j{j}', inp, model,
+                                     strat, j, S.MUTATOR_SETS[ms]))
+        if tier != 'thorough':
+            scns = scns[rep.seed % 2::2]
+        conform.jn_conformance(rep, scns)
+    return extra
 
 
 def main(tier):
@@ -103,7 +126,8 @@ def main(tier):
          'pass-through', 'reference tokenizer ddv/sexp.py'),
         vacuity={'executions_with_discarded_success': 1,
                  'executions_using_check_par': 1,
-                 'executions_with_two_results_in_flight': 1})
+                 'executions_with_two_results_in_flight': 1},
+        extra=conformance(tier))
 
 
 def replay(rec):
